@@ -1,2 +1,531 @@
-(* C20 (DOT export): placeholder *)
-From AJ Require Import Common.Util Graph.GModel.
+(* C20: what the exported graph and the listing contain.  Proofs about Dot.v. *)
+From Coq Require Import Permutation.
+From AJ Require Import Common.Util Graph.GModel Graph.Sanitize Graph.Topo Graph.GSpecs Graph.Dot
+  Graph.DotLex.
+
+(* ------------------------------------------------------------------ *)
+(* decimal numerals *)
+
+Definition dval (c : N) : nat := N.to_nat c - 48.
+Definition num_acc (acc : nat) (l : bytes) : nat := fold_left (fun a c => 10 * a + dval c) l acc.
+
+Lemma num_acc_snoc acc l d : num_acc acc (l ++ [d]) = 10 * num_acc acc l + dval d.
+Proof. unfold num_acc. rewrite fold_left_app. reflexivity. Qed.
+
+Lemma dval_digit k : dval (N.of_nat (48 + k)) = k.
+Proof. unfold dval. rewrite Nat2N.id. lia. Qed.
+
+Lemma num_digits_fuel : forall fuel n, n < fuel -> num_acc 0 (digits_fuel fuel n) = n.
+Proof.
+  induction fuel as [|f IH]; intros n Hn; [lia|].
+  cbn [digits_fuel]. destruct (Nat.ltb_spec n 10) as [Hlt|Hge].
+  - unfold num_acc. cbn [fold_left]. rewrite dval_digit. lia.
+  - rewrite num_acc_snoc, dval_digit.
+    assert (Hd : n / 10 < n) by (apply Nat.div_lt; lia).
+    rewrite IH by lia. pose proof (Nat.div_mod n 10 ltac:(lia)). lia.
+Qed.
+
+Lemma num_zeros k l : num_acc 0 (repeat 48%N k ++ l) = num_acc 0 l.
+Proof. induction k as [|k IH]; [reflexivity|]. cbn [repeat app]. exact IH. Qed.
+
+Lemma num_fmt w n : num_acc 0 (fmt w n) = n.
+Proof. unfold fmt, pad. rewrite num_zeros. apply num_digits_fuel. lia. Qed.
+
+Theorem fmt_inj w a b : fmt w a = fmt w b -> a = b.
+Proof. intros E. rewrite <- (num_fmt w a), <- (num_fmt w b), E. reflexivity. Qed.
+
+Lemma is_digit_of k : k < 10 -> is_digit (N.of_nat (48 + k)) = true.
+Proof. intros H. do 10 (destruct k as [|k]; [reflexivity|]). lia. Qed.
+
+Lemma digits_fuel_digit : forall fuel n, forallb is_digit (digits_fuel fuel n) = true.
+Proof.
+  induction fuel as [|f IH]; intros n; [reflexivity|].
+  cbn [digits_fuel]. destruct (Nat.ltb_spec n 10) as [Hlt|Hge].
+  - cbn [forallb]. rewrite is_digit_of by lia. reflexivity.
+  - rewrite forallb_app, IH. cbn [forallb]. rewrite is_digit_of; [reflexivity|].
+    apply Nat.mod_upper_bound. lia.
+Qed.
+
+Lemma digits_nonempty n : digits n <> [].
+Proof.
+  unfold digits. cbn [digits_fuel]. destruct (n <? 10); [discriminate|].
+  intro E. apply app_eq_nil in E. destruct E; discriminate.
+Qed.
+
+Lemma fmt_digits w n : fmt w n <> [] /\ forallb is_digit (fmt w n) = true.
+Proof.
+  unfold fmt, pad. split.
+  - intro E. apply app_eq_nil in E. destruct E as [_ E]. exact (digits_nonempty n E).
+  - rewrite forallb_app. unfold digits. rewrite digits_fuel_digit, andb_true_r.
+    induction (w - length (digits_fuel (S n) n)) as [|k IH]; [reflexivity|].
+    cbn [repeat forallb]. rewrite IH. reflexivity.
+Qed.
+
+(* ------------------------------------------------------------------ *)
+(* helpers *)
+
+Lemma lookup_app_find {A} (f : jtree -> A) ks j :
+  lookup_app f ks j = option_map f (find_kid j ks).
+Proof.
+  induction ks as [|k ks IH]; [reflexivity|].
+  cbn [lookup_app find_kid]. destruct (Nat.eqb (tid k) j); [reflexivity|exact IH].
+Qed.
+
+Lemma find_kid_In j ks k : find_kid j ks = Some k -> In k ks /\ tid k = j.
+Proof.
+  induction ks as [|x ks IH]; [discriminate|].
+  cbn [find_kid]. destruct (Nat.eqb_spec (tid x) j) as [E|E].
+  - intros H. inversion H; subst. split; [left; reflexivity|reflexivity].
+  - intros H. destruct (IH H). split; [right; assumption|assumption].
+Qed.
+
+Lemma find_kid_self ks k : NoDup (map tid ks) -> In k ks -> find_kid (tid k) ks = Some k.
+Proof.
+  induction ks as [|x ks IH]; intros ND Hin; [destruct Hin|].
+  cbn [map] in ND. inversion ND as [|? ? Hn ND']; subst.
+  cbn [find_kid]. destruct Hin as [->|Hin].
+  - rewrite Nat.eqb_refl. reflexivity.
+  - destruct (Nat.eqb_spec (tid x) (tid k)) as [E|E].
+    + exfalso. apply Hn. rewrite E. apply in_map. exact Hin.
+    + apply IH; auto.
+Qed.
+
+Lemma find_kid_some ks j : In j (map tid ks) -> exists k, find_kid j ks = Some k.
+Proof.
+  induction ks as [|x ks IH]; intros H; [destruct H|].
+  cbn [find_kid]. destruct (Nat.eqb_spec (tid x) j) as [E|E]; [eauto|].
+  destruct H as [H|H]; [congruence|]. auto.
+Qed.
+
+(* ------------------------------------------------------------------ *)
+(* numbering: _set_sched_ids numbers the jobs 1, 2, 3 ... along the listing order *)
+
+(* the order in which list() shows the jobs *)
+Fixpoint walk (rq : rmap) (t : jtree) : list nat :=
+  match t with
+  | Atom _ => []
+  | Sched _ kids =>
+      flat_map (fun j => j :: match lookup_app (walk rq) kids j with Some l => l | None => [] end)
+               (fst (topo rq (map tid kids)))
+  end.
+
+Fixpoint ids_loop (rec : jtree -> nat -> option (list (nat * nat) * nat)) (kids : list jtree)
+  (ord : list nat) (i : nat) (acc : list (nat * nat)) : option (list (nat * nat) * nat) :=
+  match ord with
+  | [] => Some (acc, i)
+  | j :: ord' =>
+      match find_kid j kids with
+      | None => None
+      | Some (Atom _) => ids_loop rec kids ord' (S i) (acc ++ [(j, i)])
+      | Some (Sched _ _ as k) =>
+          match rec k (S i) with
+          | None => None
+          | Some (sub, i') => ids_loop rec kids ord' i' (acc ++ (j, i) :: sub)
+          end
+      end
+  end.
+
+Lemma set_ids_fuel_S f rq t start :
+  set_ids_fuel (S f) rq t start =
+  let '(order, r) := topo rq (map tid (kids_of t)) in
+  if tres_eqb r TOk then ids_loop (set_ids_fuel f rq) (kids_of t) order start [] else None.
+Proof.
+  cbn [set_ids_fuel]. destruct (topo rq (map tid (kids_of t))) as [order r].
+  destruct (tres_eqb r TOk); [|reflexivity].
+  generalize (@nil (nat * nat)) at 2 3. generalize start.
+  induction order as [|j ord IH]; intros i acc; [reflexivity|].
+  cbn [ids_loop]. destruct (find_kid j (kids_of t)) as [[a|a ks]|]; try reflexivity.
+  - apply IH.
+  - destruct (set_ids_fuel f rq (Sched a ks) (S i)) as [[sub i']|]; [apply IH|reflexivity].
+Qed.
+
+Definition ids_ok (start : nat) (ids : list (nat * nat)) (nxt : nat) (w : list nat) : Prop :=
+  map fst ids = w /\ map snd ids = seq start (length ids) /\ nxt = start + length ids.
+
+Lemma set_ids_fuel_spec rq : forall fuel t start ids nxt,
+  set_ids_fuel fuel rq t start = Some (ids, nxt) -> ids_ok start ids nxt (walk rq t).
+Proof.
+  induction fuel as [|f IH]; intros t start ids nxt H; [discriminate|].
+  rewrite set_ids_fuel_S in H.
+  destruct t as [a|a kids].
+  - (* an atom has no kids: topo of [] *)
+    cbn in H. inversion H; subst. repeat split; cbn; lia.
+  - cbn [kids_of walk] in *. destruct (topo rq (map tid kids)) as [order r]. cbn [fst].
+    destruct (tres_eqb r TOk); [|discriminate].
+    assert (G : forall ord i acc res n,
+      ids_loop (set_ids_fuel f rq) kids ord i acc = Some (res, n) ->
+      exists more, res = acc ++ more /\
+        ids_ok i more n
+          (flat_map (fun j => j :: match lookup_app (walk rq) kids j with Some l => l | None => [] end)
+                    ord)).
+    { induction ord as [|j ord IHo]; intros i acc res n Hl.
+      - cbn in Hl. inversion Hl; subst. exists []. rewrite app_nil_r. repeat split; cbn; lia.
+      - cbn [ids_loop] in Hl. cbn [flat_map]. rewrite lookup_app_find.
+        destruct (find_kid j kids) as [[b|b ks]|] eqn:Ef; [| |discriminate].
+        + apply IHo in Hl. destruct Hl as (more & -> & H1 & H2 & H3).
+          exists ((j, i) :: more). rewrite <- app_assoc. split; [reflexivity|].
+          cbn [option_map walk app]. repeat split; cbn [map fst snd length seq]; try congruence; lia.
+        + destruct (set_ids_fuel f rq (Sched b ks) (S i)) as [[sub i']|] eqn:Es; [|discriminate].
+          apply IH in Es. destruct Es as (S1 & S2 & S3).
+          apply IHo in Hl. destruct Hl as (more & -> & H1 & H2 & H3).
+          exists ((j, i) :: sub ++ more). split; [rewrite <- app_assoc; reflexivity|].
+          cbn [option_map]. repeat split.
+          * cbn [map fst app]. rewrite map_app, S1, H1. reflexivity.
+          * cbn [map snd length]. rewrite map_app, app_length, S2, H2. cbn [seq]. f_equal.
+            rewrite seq_app. f_equal. f_equal. lia.
+          * cbn [length]. rewrite app_length. lia. }
+    apply G in H. destruct H as (more & E & Hok). cbn [app] in E. subst more. exact Hok.
+Qed.
+
+Lemma assoc_id_In ids j n : NoDup (map fst ids) -> In (j, n) ids -> assoc_id ids j = n.
+Proof.
+  induction ids as [|[k m] ids IH]; intros ND Hin; [destruct Hin|].
+  cbn [map fst] in ND. inversion ND as [|? ? Hn ND']; subst.
+  cbn [assoc_id]. destruct Hin as [E|Hin].
+  - inversion E; subst. rewrite Nat.eqb_refl. reflexivity.
+  - destruct (Nat.eqb_spec k j) as [->|Ne]; [|auto].
+    exfalso. apply Hn. apply (in_map fst) in Hin. exact Hin.
+Qed.
+
+Lemma assoc_id_inj ids a b : NoDup (map fst ids) -> NoDup (map snd ids) ->
+  In a (map fst ids) -> In b (map fst ids) -> assoc_id ids a = assoc_id ids b -> a = b.
+Proof.
+  intros N1 N2 Ha Hb E.
+  apply in_map_iff in Ha. destruct Ha as ([a' n] & <- & Ha).
+  apply in_map_iff in Hb. destruct Hb as ([b' m] & <- & Hb).
+  cbn [fst] in *. rewrite (assoc_id_In _ _ _ N1 Ha), (assoc_id_In _ _ _ N1 Hb) in E. subst m.
+  clear N1. induction ids as [|[k x] ids IH]; [destruct Ha|].
+  cbn [map snd] in N2. inversion N2 as [|? ? Hn N2']; subst.
+  destruct Ha as [Ea|Ha], Hb as [Eb|Hb].
+  - congruence.
+  - inversion Ea; subst. exfalso. apply Hn. apply (in_map snd) in Hb. exact Hb.
+  - inversion Eb; subst. exfalso. apply Hn. apply (in_map snd) in Ha. exact Ha.
+  - auto.
+Qed.
+
+(* ------------------------------------------------------------------ *)
+(* the listing order visits every job below the root exactly once *)
+
+Lemma flat_map_map {A B C} (f : A -> B) (g : B -> list C) l :
+  flat_map g (map f l) = flat_map (fun x => g (f x)) l.
+Proof. induction l as [|a l IH]; [reflexivity|]. cbn [map flat_map]. rewrite IH. reflexivity. Qed.
+
+Lemma perm_flat_map_pw {A B} (f h : A -> list B) l :
+  Forall (fun k => Permutation (f k) (h k)) l -> Permutation (flat_map f l) (flat_map h l).
+Proof.
+  induction 1 as [|k l Hk Hl IH]; [constructor|].
+  cbn [flat_map]. apply Permutation_app; assumption.
+Qed.
+
+Lemma tree_ids_below k : tree_ids k = tid k :: below k.
+Proof. destruct k; reflexivity. Qed.
+
+Definition tree_wf (rq : rmap) (t : jtree) : Prop := all_levels_ok rq t /\ nodup_levels t.
+
+Lemma tree_wf_kids rq i kids : tree_wf rq (Sched i kids) ->
+  snd (topo rq (map tid kids)) = TOk /\ NoDup (map tid kids) /\ Forall (tree_wf rq) kids.
+Proof.
+  intros [H1 H2]. cbn [all_levels_ok nodup_levels] in *. destruct H1 as [Hok Hall].
+  destruct H2 as [Hnd Hall2]. apply all_levels_Forall in Hall. apply nodup_levels_Forall in Hall2.
+  repeat split; auto. rewrite Forall_forall in *. intros k Hk. split; auto.
+Qed.
+
+Lemma order_perm rq i kids : tree_wf rq (Sched i kids) ->
+  Permutation (fst (topo rq (map tid kids))) (map tid kids).
+Proof.
+  intros H. destruct (tree_wf_kids _ _ _ H) as (Hok & Hnd & _).
+  destruct (topo_complete rq (map tid kids) Hnd Hok) as [Hp _]. exact Hp.
+Qed.
+
+Lemma walk_perm rq t : tree_wf rq t -> Permutation (walk rq t) (below t).
+Proof.
+  induction t as [i|i kids IH] using jtree_ind2; intros Hwf; [constructor|].
+  pose proof (order_perm _ _ _ Hwf) as Hp.
+  destruct (tree_wf_kids _ _ _ Hwf) as (Hok & Hnd & Hkids).
+  cbn [walk]. unfold below. cbn [kids_of].
+  etransitivity; [apply Permutation_flat_map; exact Hp|].
+  rewrite flat_map_map. apply perm_flat_map_pw.
+  rewrite Forall_forall in *. intros k Hk.
+  rewrite lookup_app_find, (find_kid_self kids k Hnd Hk). cbn [option_map].
+  rewrite tree_ids_below. constructor. apply IH; auto.
+Qed.
+
+(* every job of the tree sits in one scheduler only *)
+Definition unique_jobs (t : jtree) : Prop := NoDup (below t).
+
+Lemma set_ids_numbers rq t ids nxt : tree_wf rq t -> unique_jobs t ->
+  set_ids rq t = Some (ids, nxt) ->
+  Permutation (map fst ids) (below t) /\ NoDup (map fst ids) /\
+  map snd ids = seq 1 (length ids) /\ map fst ids = walk rq t.
+Proof.
+  intros Hwf Hu H. unfold set_ids in H. apply set_ids_fuel_spec in H.
+  destruct H as (H1 & H2 & _). pose proof (walk_perm rq t Hwf) as Hp.
+  rewrite <- H1 in Hp. repeat split; auto.
+  apply (Permutation_NoDup (Permutation_sym Hp)). exact Hu.
+Qed.
+
+(* tree-wide unique ids *)
+Theorem ids_distinct rq t ids nxt w a b : tree_wf rq t -> unique_jobs t ->
+  set_ids rq t = Some (ids, nxt) -> In a (below t) -> In b (below t) ->
+  fmt w (assoc_id ids a) = fmt w (assoc_id ids b) -> a = b.
+Proof.
+  intros Hwf Hu H Ha Hb E. apply fmt_inj in E.
+  destruct (set_ids_numbers rq t ids nxt Hwf Hu H) as (Hp & Hnd & Hs & _).
+  apply (assoc_id_inj ids a b); auto.
+  - rewrite Hs. apply seq_NoDup.
+  - apply (Permutation_in _ (Permutation_sym Hp)). exact Ha.
+  - apply (Permutation_in _ (Permutation_sym Hp)). exact Hb.
+Qed.
+
+(* ------------------------------------------------------------------ *)
+(* the nesting of nodes and clusters is the scheduler tree *)
+
+Inductive ntree :=
+| NAtom (id : bytes) (a : list attr)
+| NSched (name : bytes) (a : list attr) (kids : list ntree).
+
+(* the attributes given to a (sub)graph by its "graph [...]" statements *)
+Definition graph_attrs (b : list stmt) : list attr :=
+  flat_map (fun s => match s with SGraph a => a | _ => [] end) b.
+
+Fixpoint shape_stmt (s : stmt) : list ntree :=
+  match s with
+  | SNode i a => [NAtom i a]
+  | SSub n b => [NSched n (graph_attrs b) (flat_map shape_stmt b)]
+  | _ => []
+  end.
+Definition shape (b : list stmt) : list ntree := flat_map shape_stmt b.
+
+Fixpoint edges_stmt (s : stmt) : list stmt :=
+  match s with
+  | SEdge _ _ _ => [s]
+  | SSub _ b => flat_map edges_stmt b
+  | _ => []
+  end.
+Definition edges_of (b : list stmt) : list stmt := flat_map edges_stmt b.
+
+(* the tree with the jobs of each scheduler put in topological order *)
+Fixpoint tsort (rq : rmap) (t : jtree) : jtree :=
+  match t with
+  | Atom i => Atom i
+  | Sched i kids =>
+      Sched i (flat_map (fun j => match lookup_app (tsort rq) kids j with Some k => [k] | None => [] end)
+                        (fst (topo rq (map tid kids))))
+  end.
+
+(* same tree up to the order of the jobs inside each scheduler *)
+Inductive tperm : jtree -> jtree -> Prop :=
+| tperm_atom i : tperm (Atom i) (Atom i)
+| tperm_sched i ks ks1 ks2 :
+    Forall2 tperm ks ks1 -> Permutation ks1 ks2 -> tperm (Sched i ks) (Sched i ks2).
+
+Lemma tsort_tperm rq t : tree_wf rq t -> tperm t (tsort rq t).
+Proof.
+  induction t as [i|i kids IH] using jtree_ind2; intros Hwf; [constructor|].
+  pose proof (order_perm _ _ _ Hwf) as Hp.
+  destruct (tree_wf_kids _ _ _ Hwf) as (Hok & Hnd & Hkids).
+  cbn [tsort]. apply tperm_sched with (ks1 := map (tsort rq) kids).
+  - clear Hp Hnd Hok Hwf. induction kids as [|k kids IHk]; [constructor|].
+    inversion IH; subst. inversion Hkids; subst. constructor; auto.
+  - apply Permutation_sym.
+    etransitivity; [apply Permutation_flat_map; exact Hp|].
+    rewrite flat_map_map.
+    assert (E : forall ks, incl ks kids ->
+              flat_map (fun x => match lookup_app (tsort rq) kids (tid x) with
+                                 | Some k => [k] | None => [] end) ks = map (tsort rq) ks).
+    { induction ks as [|k ks IHk]; intros Hi; [reflexivity|].
+      cbn [flat_map map]. rewrite lookup_app_find, (find_kid_self kids k Hnd (Hi k (or_introl eq_refl))).
+      cbn [option_map app]. f_equal. apply IHk. intros x Hx. apply Hi. right. exact Hx. }
+    rewrite E by apply incl_refl. apply Permutation_refl.
+Qed.
+
+(* ------------------------------------------------------------------ *)
+(* monadic helpers *)
+
+Lemma rconcat_map_Ok {A B} (f : A -> res (list B)) : forall l b,
+  rconcat (map f l) = Ok b ->
+  exists bs, Forall2 (fun a x => f a = Ok x) l bs /\ b = concat bs.
+Proof.
+  induction l as [|a l IH]; intros b H.
+  - cbn in H. inversion H; subst. exists []. split; [constructor|reflexivity].
+  - cbn [map rconcat] in H. destruct (f a) as [x|e] eqn:Ef; [|discriminate].
+    destruct (rconcat (map f l)) as [b'|e] eqn:Er; [|discriminate].
+    inversion H; subst. destruct (IH b' eq_refl) as (bs & HF & ->).
+    exists (x :: bs). split; [constructor; auto|reflexivity].
+Qed.
+
+Lemma rmapM_Ok {A B} (f : A -> res B) : forall l bs,
+  rmapM f l = Ok bs -> Forall2 (fun a x => f a = Ok x) l bs.
+Proof.
+  induction l as [|a l IH]; intros bs H.
+  - cbn in H. inversion H; subst. constructor.
+  - cbn [rmapM] in H. destruct (f a) as [x|e] eqn:Ef; [|discriminate].
+    destruct (rmapM f l) as [b'|e] eqn:Er; [|discriminate].
+    inversion H; subst. constructor; auto.
+Qed.
+
+Fixpoint atoms (t : jtree) : list nat :=
+  match t with Atom i => [i] | Sched _ ks => flat_map atoms ks end.
+
+(* the atomic job that may stand for [k] at the end of an edge *)
+Definition rep (k : jtree) (x : nat) : Prop :=
+  match k with Atom i => x = i | Sched _ _ => In x (atoms k) end.
+
+Lemma rep_atoms k x : rep k x -> In x (atoms k).
+Proof. destruct k; cbn; auto. Qed.
+
+Section Structure.
+  Variable rq : rmap.
+  Variable inf : infos.
+  Variable idf : nat -> bytes.
+
+  Notation body := (body rq inf idf).
+  Notation style_attrs := (style_attrs inf idf).
+  Notation cluster := (cluster idf).
+
+  Fixpoint nt_of (t : jtree) : ntree :=
+    match t with
+    | Atom i => NAtom (idf i) (style_attrs true i)
+    | Sched i ks => NSched (cluster i) (style_attrs false i) (map nt_of ks)
+    end.
+
+  Lemma mid_entry_rep t : forall x, mid_entry rq t = Ok x -> rep t x.
+  Proof.
+    induction t as [i|i kids IH] using jtree_ind2; intros x H.
+    - cbn in H. inversion H. reflexivity.
+    - cbn [mid_entry] in H. destruct (middle (entries rq (map tid kids))) as [c|]; [|discriminate].
+      rewrite lookup_app_find in H. destruct (find_kid c kids) as [k|] eqn:Ef; [|discriminate].
+      cbn in H. destruct (find_kid_In _ _ _ Ef) as [Hin _].
+      rewrite Forall_forall in IH. apply (IH k Hin) in H. apply rep_atoms in H.
+      cbn [rep atoms]. apply in_flat_map. exists k. auto.
+  Qed.
+
+  Lemma mid_exit_rep t : forall x, mid_exit rq inf t = Ok x -> rep t x.
+  Proof.
+    induction t as [i|i kids IH] using jtree_ind2; intros x H.
+    - cbn in H. inversion H. reflexivity.
+    - cbn [mid_exit] in H.
+      destruct (middle (exit_cands rq inf (map tid kids))) as [c|]; [|discriminate].
+      rewrite lookup_app_find in H. destruct (find_kid c kids) as [k|] eqn:Ef; [|discriminate].
+      cbn in H. destruct (find_kid_In _ _ _ Ef) as [Hin _].
+      rewrite Forall_forall in IH. apply (IH k Hin) in H. apply rep_atoms in H.
+      cbn [rep atoms]. apply in_flat_map. exists k. auto.
+  Qed.
+
+  Definition lhead_of (k : jtree) : list attr :=
+    match k with Atom _ => [] | Sched j _ => [(k_lhead, VId (cluster j))] end.
+  Definition ltail_of (k : jtree) : list attr :=
+    match k with Atom _ => [] | Sched j _ => [(k_ltail, VId (cluster j))] end.
+
+  (* the edge drawn for "k requires kr": between the two jobs, or, for a scheduler end, an atomic
+     job inside that scheduler with lhead / ltail naming its cluster *)
+  Definition edge_ok (p : jtree * jtree) (e : stmt) : Prop :=
+    exists x y, e = SEdge (idf x) (idf y) (lhead_of (fst p) ++ ltail_of (snd p))
+                /\ rep (snd p) x /\ rep (fst p) y.
+
+  Lemma edge_stmt_ok kids k r e : edge_stmt rq inf idf kids k r = Ok e ->
+    exists kr, find_kid r kids = Some kr /\ edge_ok (k, kr) e.
+  Proof.
+    unfold edge_stmt. destruct (find_kid r kids) as [kr|] eqn:Ef; [|discriminate].
+    destruct (find_kid_In _ _ _ Ef) as [_ Hr].
+    intros H. exists kr. split; [reflexivity|]. unfold edge_ok. cbn [fst snd].
+    destruct k as [j|j ks], kr as [r'|r' ks']; cbn [tid] in Hr; subst r'.
+    - inversion H; subst. exists r, j. cbn. auto.
+    - destruct (mid_exit rq inf (Sched r ks')) as [a|] eqn:Ea; [|discriminate]. cbn [rbind] in H.
+      inversion H; subst. exists a, j. split; [reflexivity|]. split; [|reflexivity].
+      apply mid_exit_rep. exact Ea.
+    - destruct (mid_entry rq (Sched j ks)) as [b|] eqn:Eb; [|discriminate]. cbn [rbind] in H.
+      inversion H; subst. exists r, b. split; [reflexivity|]. split; [reflexivity|].
+      apply mid_entry_rep. exact Eb.
+    - destruct (mid_exit rq inf (Sched r ks')) as [a|] eqn:Ea; [|discriminate]. cbn [rbind] in H.
+      destruct (mid_entry rq (Sched j ks)) as [b|] eqn:Eb; [|discriminate]. cbn [rbind] in H.
+      inversion H; subst. exists a, b. split; [reflexivity|].
+      split; [apply mid_exit_rep; exact Ea|apply mid_entry_rep; exact Eb].
+  Qed.
+
+  Lemma edge_ok_is_edge p e : edge_ok p e -> shape_stmt e = [] /\ edges_stmt e = [e] /\
+    (match e with SGraph a => a | _ => [] end) = [].
+  Proof. intros (x & y & -> & _). auto. Qed.
+
+  (* requirements between two jobs of one scheduler, as (job, required job) *)
+  Definition level_reqs (kids : list jtree) (k : jtree) : list (jtree * jtree) :=
+    flat_map (fun r => match find_kid r kids with Some kr => [(k, kr)] | None => [] end)
+             (rq (tid k)).
+
+  (* all of them, in the order in which _dot_body meets them *)
+  Fixpoint req_list (t : jtree) : list (jtree * jtree) :=
+    match t with
+    | Atom _ => []
+    | Sched _ kids =>
+        flat_map (fun j => match lookup_app (fun k => req_list k ++ level_reqs kids k) kids j with
+                           | Some l => l | None => [] end)
+                 (fst (topo rq (map tid kids)))
+    end.
+
+  Lemma edge_stmts_ok kids k es : edge_stmts rq inf idf kids k = Ok es ->
+    Forall2 edge_ok (level_reqs kids k) es.
+  Proof.
+    unfold edge_stmts, level_reqs. intros H. apply rmapM_Ok in H.
+    induction H as [|r e l es Hre Hl IH]; [constructor|].
+    cbn [flat_map]. destruct (edge_stmt_ok _ _ _ _ Hre) as (kr & Ef & Hok). rewrite Ef.
+    cbn [app]. constructor; auto.
+  Qed.
+
+  Lemma shape_app a b : shape (a ++ b) = shape a ++ shape b.
+  Proof. apply flat_map_app. Qed.
+  Lemma edges_app a b : edges_of (a ++ b) = edges_of a ++ edges_of b.
+  Proof. apply flat_map_app. Qed.
+  Lemma gattrs_app a b : graph_attrs (a ++ b) = graph_attrs a ++ graph_attrs b.
+  Proof. apply flat_map_app. Qed.
+
+  Lemma edges_only l es : Forall2 edge_ok l es ->
+    shape es = [] /\ edges_of es = es /\ graph_attrs es = [].
+  Proof.
+    induction 1 as [|p e l es Hp Hl IH]; [auto|].
+    destruct (edge_ok_is_edge _ _ Hp) as (E1 & E2 & E3). destruct IH as (I1 & I2 & I3).
+    unfold shape, edges_of, graph_attrs in *. cbn [flat_map]. rewrite E1, E2, E3, I1, I2, I3. auto.
+  Qed.
+
+  (* what _dot_body produces for one scheduler *)
+  Definition body_spec (t : jtree) (b : list stmt) : Prop :=
+    shape b = map nt_of (kids_of (tsort rq t)) /\ graph_attrs b = [] /\
+    Forall2 edge_ok (req_list t) (edges_of b).
+
+  Theorem body_structure t : forall b, body t = Ok b -> body_spec t b.
+  Proof.
+    induction t as [i|i kids IH] using jtree_ind2; intros b H.
+    - cbn in H. inversion H; subst. repeat split; constructor.
+    - cbn [Dot.body] in H. unfold body_spec. cbn [tsort kids_of req_list].
+      destruct (topo rq (map tid kids)) as [order r]. cbn [fst].
+      destruct (tres_eqb r TOk); [|discriminate].
+      revert b H. induction order as [|j ord IHo]; intros b H.
+      + cbn in H. inversion H; subst. repeat split; constructor.
+      + cbn [map rconcat] in H.
+        destruct (job_stmts rq inf idf body kids j) as [pj|] eqn:Ej; [|discriminate].
+        destruct (rconcat (map (job_stmts rq inf idf body kids) ord)) as [b'|] eqn:Er; [|discriminate].
+        inversion H; subst b. clear H. destruct (IHo b' eq_refl) as (S1 & G1 & E1).
+        unfold job_stmts in Ej. rewrite lookup_app_find in Ej.
+        destruct (find_kid j kids) as [k|] eqn:Ef; [|discriminate]. cbn [option_map flat_res] in Ej.
+        destruct (own_stmt inf idf body k) as [s|] eqn:Eo; [|discriminate].
+        destruct (edge_stmts rq inf idf kids k) as [es|] eqn:Ee; [|discriminate].
+        inversion Ej; subst pj. clear Ej.
+        apply edge_stmts_ok in Ee. destruct (edges_only _ _ Ee) as (X1 & X2 & X3).
+        destruct (find_kid_In _ _ _ Ef) as [Hin _].
+        cbn [flat_map]. rewrite !lookup_app_find, Ef. cbn [option_map].
+        change (s :: es) with ([s] ++ es). rewrite <- !app_assoc.
+        rewrite !shape_app, !gattrs_app, !edges_app, X1, X2, X3, S1, G1. cbn [app].
+        assert (Hs : shape [s] = [nt_of (tsort rq k)] /\ graph_attrs [s] = [] /\
+                     Forall2 edge_ok (req_list k) (edges_of [s])).
+        { destruct k as [a|a ks]; cbn [own_stmt] in Eo.
+          - inversion Eo; subst. repeat split. constructor.
+          - destruct (body (Sched a ks)) as [bk|] eqn:Eb; [|discriminate]. inversion Eo; subst.
+            rewrite Forall_forall in IH. destruct (IH _ Hin bk Eb) as (K1 & K2 & K3).
+            unfold shape, graph_attrs, edges_of in *.
+            cbn [flat_map shape_stmt edges_stmt app header]. rewrite K1. unfold graph_attrs. cbn [flat_map app]. rewrite K2, !app_nil_r.
+            repeat split.
+            + exact K3. }
+        destruct Hs as (Y1 & Y2 & Y3). rewrite Y1, Y2. cbn [app map].
+        split; [reflexivity|]. split; [reflexivity|].
+        apply Forall2_app; [assumption|apply Forall2_app; assumption].
+  Qed.
+End Structure.
